@@ -1050,6 +1050,24 @@ impl Decompressor {
 
         let mut writer = GenomeWriter::<File>::create(output_path)?;
 
+        Self::write_contigs_fasta(contigs, &mut writer)
+    }
+
+    /// Append a sample's FASTA records to an already open writer
+    /// (lets a caller put several samples into one output)
+    pub fn write_sample_fasta_to<W: std::io::Write>(
+        &mut self,
+        sample_name: &str,
+        writer: &mut GenomeWriter<W>,
+    ) -> Result<()> {
+        let contigs = self.get_sample(sample_name)?;
+        Self::write_contigs_fasta(contigs, writer)
+    }
+
+    fn write_contigs_fasta<W: std::io::Write>(
+        contigs: Vec<(String, Contig)>,
+        writer: &mut GenomeWriter<W>,
+    ) -> Result<()> {
         for (contig_name, contig_data) in contigs {
             // Convert numeric encoding back to ASCII using CNV_NUM lookup table
             // CNV_NUM[0..16] = [A, C, G, T, N, R, Y, S, W, K, M, B, D, H, V, U]
